@@ -230,8 +230,9 @@ def worker(case, led):
 
 
 def check(run):
-    from props import C03_proof
+    from props import C03_proof, C03_sym
     C03_proof.prove(run)
+    C03_sym.prove(run)
     seeds = [run.seed] if run.tier == "quick" else [run.seed, run.seed + 1, run.seed + 2]
     cases = [(name, n, s, run.tier) for name, n in U.chain_cases(run.tier, run.seed) for s in seeds]
     run_cases(run, worker, cases)
